@@ -1064,6 +1064,74 @@ fn run_backlog(kind: &str, n: usize) -> (String, String, String) {
     (imp, if ok { "ok".into() } else { format!("FAIL expected [{}]", want.join(",")) }, format!("backlog,timer+queued,cancel,n{}", n))
 }
 
+/// `vq collide <threads> <rounds>`: all threads (clones of one sender) are released together by a spin
+/// barrier before every `send_with_timer` with the same duration, so that several calls read the same
+/// `Instant` and race on the shared sequence counter; ids must be distinct, every event delivered once
+fn run_collide(threads: usize, rounds: usize) -> (String, String, String) {
+    use std::sync::atomic::{AtomicUsize, Ordering};
+    use std::sync::Arc;
+    if threads < 2 || threads > 64 || rounds == 0 || rounds > 1_000_000 {
+        return ("bad-case".into(), "ok".into(), String::new())
+    }
+    let mut q = EventReceiver::<u64>::default();
+    let arrived = Arc::new(AtomicUsize::new(0));
+    let generation = Arc::new(AtomicUsize::new(0));
+    let dur = Duration::from_millis(50 + (rounds as u64) / 500);
+    let mut hs = vec![];
+    for t in 0..threads {
+        let tx = q.sender().clone();
+        let (arrived, generation) = (arrived.clone(), generation.clone());
+        hs.push(std::thread::spawn(move || {
+            let mut ids = Vec::with_capacity(rounds);
+            for r in 0..rounds {
+                // spin barrier
+                let g = generation.load(Ordering::Acquire);
+                if arrived.fetch_add(1, Ordering::AcqRel) + 1 == threads {
+                    arrived.store(0, Ordering::Release);
+                    generation.store(g + 1, Ordering::Release);
+                }
+                else {
+                    while generation.load(Ordering::Acquire) == g {
+                        std::hint::spin_loop();
+                    }
+                }
+                ids.push(tx.send_with_timer((t * rounds + r) as u64, dur));
+            }
+            ids
+        }));
+    }
+    let mut ids: Vec<TimerId> = vec![];
+    for h in hs {
+        ids.extend(h.join().unwrap());
+    }
+    let total = threads * rounds;
+    let mut seen = std::collections::HashSet::new();
+    let dup_ids = ids.iter().filter(|id| !seen.insert(**id)).count();
+    let mut got = vec![0u8; total];
+    let deadline = Instant::now() + dur + Duration::from_secs(4);
+    let mut n = 0;
+    while n < total && Instant::now() < deadline {
+        if let Some(e) = q.receive_timeout(Duration::from_millis(200)) {
+            got[e as usize] = got[e as usize].saturating_add(1);
+            n += 1;
+        }
+        else if Instant::now() > deadline - Duration::from_secs(3) {
+            break
+        }
+    }
+    while let Some(e) = q.receive_timeout(Duration::from_millis(30)) {
+        got[e as usize] = got[e as usize].saturating_add(1);
+    }
+    let lost = got.iter().filter(|c| **c == 0).count();
+    let dup = got.iter().filter(|c| **c > 1).count();
+    let ok = dup_ids == 0 && lost == 0 && dup == 0;
+    (
+        format!("dup_ids={} lost={}", dup_ids, lost),
+        if ok { "ok".into() } else { format!("FAIL {} equal TimerIds among {} timers, {} events lost, {} delivered twice", dup_ids, total, lost, dup) },
+        "collide,interleaved".into(),
+    )
+}
+
 fn run_race(kind: char) -> (String, String, String, String) {
     use message_io::util::verif::set_sync_handler;
     use std::sync::atomic::{AtomicBool, Ordering};
@@ -1245,6 +1313,12 @@ fn main() {
                 }
             }
         }
+        "gen-collide" => {
+            let threads = arg_u64(2, 8) as usize;
+            let rounds = arg_u64(3, 20000) as usize;
+            let (i, v, t) = run_collide(threads, rounds);
+            emit(&mut out, &format!("vq collide {} {}", threads, rounds), &i, &v, &t);
+        }
         "gen-clones" => {
             let pairs = arg_u64(2, 150000) as usize;
             let (i, v, t) = run_clones(pairs);
@@ -1262,7 +1336,14 @@ fn main() {
         }
         "run" => {
             for line in stdin_lines() {
-                if line.starts_with("vq backlog ") {
+                if line.starts_with("vq collide ") {
+                    let ws: Vec<&str> = line.trim().split(' ').collect();
+                    let t = ws.get(2).and_then(|x| x.parse().ok()).unwrap_or(0);
+                    let r = ws.get(3).and_then(|x| x.parse().ok()).unwrap_or(0);
+                    let (i, v, tg) = run_collide(t, r);
+                    emit(&mut out, line.trim(), &i, &v, &tg);
+                }
+                else if line.starts_with("vq backlog ") {
                     let ws: Vec<&str> = line.trim().split(' ').collect();
                     let n = ws.get(3).and_then(|x| x.parse().ok()).unwrap_or(usize::MAX);
                     let (i, v, t) = run_backlog(ws.get(2).copied().unwrap_or(""), n);
